@@ -107,6 +107,28 @@ def judge(decls, der_vars, shape, in_initial, nested):
     return None
 
 
+SIBLINGS = [
+    # two instances of one class, only one of them differentiated by the enclosing model; a top-level and a nested use of one class
+    ("model M model Tank Real h; input Real qin; output Real level; equation level = h; end Tank; Tank a; Tank b; equation der(a.h) = a.qin; b.h = 2 * b.qin; a.qin = 1; b.qin = 1; end M;",
+     {"states": ["a.h"], "alg_states": ["a.qin", "a.level", "b.h", "b.qin", "b.level"], "inputs": []}, ["der(a.h)"]),
+    ("model M model Body Real T; Real q; equation q = 1; end Body; model Heated extends Body; equation der(T) = q; end Heated; model Fixed extends Body; equation T = q; end Fixed; Heated hot; Fixed cold; end M;",
+     {"states": ["hot.T"], "alg_states": ["hot.q", "cold.T", "cold.q"], "inputs": []}, ["der(hot.T)"]),
+]
+
+
+def judge_siblings(txt, want, want_ders):
+    try:
+        got, ders, outs = observe(txt)
+    except BaseException as e:  # noqa
+        return {"class": "classification", "input": txt, "observed": "%s: %s" % (type(e).__name__, str(e)[:120]), "expected": "a model"}
+    for k, e in want.items():
+        if sorted(got[k]) != sorted(e):
+            return {"class": "classification", "input": txt, "observed": "%s = %s" % (k, got[k]), "expected": "%s = %s (a variable is a state only if IT is differentiated)" % (k, e)}
+    if ders != want_ders:
+        return {"class": "classification", "input": txt, "observed": "der_states = %s" % ders, "expected": "der_states = %s" % want_ders}
+    return None
+
+
 def cases(tier, seed):
     rng = np.random.RandomState(seed + 10)
     base = [(("constant",), "Real", "c"), (("parameter",), "Real", "p"), (("input",), "Real", "u"), (("output",), "Real", "y"),
@@ -133,16 +155,16 @@ def main():
     payload = json.load(sys.stdin)
     tier, seed = payload.get("tier", "quick"), int(payload.get("seed", 0) or 0)
     failures, n = [], 0
-    for c in cases(tier, seed):
+    for c in [("siblings",) + t for t in SIBLINGS] + cases(tier, seed):
         n += 1
-        f = judge(*c)
+        f = judge_siblings(*c[1:]) if c[0] == "siblings" else judge(*c)
         if f:
             failures.append(f)
             if len(failures) >= 3:
                 break
     if payload.get("mode") == "bounded":
         print(json.dumps({"performed": True, "cases": n, "distinct_nontrivial": n, "failures": failures,
-                          "rule": "models over single-keyword prefixes x types (Real/Integer/String) x 7 der() shapes (direct, in sums/products, after a nested sub-expression, inside an expression, twice) x initial equations x nested components, systematic plus random selections/orders (seed %d); lists compared with the statement's precedence, der alignment and outputs" % seed,
+                          "rule": "models over single-keyword prefixes x types (Real/Integer/String) x 7 der() shapes (direct, in sums/products, after a nested sub-expression, inside an expression, twice) x initial equations x nested components, two sibling instances / two subclasses of one declaration of which only one is differentiated, systematic plus random selections/orders (seed %d); lists compared with the statement's precedence, der alignment and outputs" % seed,
                           "bound": "%d models; multi-keyword prefixes excluded (C04)" % n}))
     else:
         f = failures[0] if failures else None
